@@ -300,6 +300,13 @@ async fn ve_all(
     }))
 }
 
+/// the same flat body type as `/e/form`, on an endpoint that declares JSON
+#[endpoint { method = POST, path = "/e/flatjson" }]
+async fn ve_flatjson(rq: RequestContext<EchoCtx>, q: Query<TagQuery>, b: TypedBody<FormBody>) -> Result<HttpResponseOk<EchoOut>, HttpError> {
+    let ctx = enter(&rq);
+    Ok(HttpResponseOk(EchoOut { ctx, path: Value::Null, query: serde_json::to_value(q.into_inner()).unwrap(), body: serde_json::to_value(b.into_inner()).unwrap() }))
+}
+
 #[endpoint { method = POST, path = "/e/form", content_type = "application/x-www-form-urlencoded" }]
 async fn ve_form(rq: RequestContext<EchoCtx>, q: Query<TagQuery>, b: TypedBody<FormBody>) -> Result<HttpResponseOk<EchoOut>, HttpError> {
     let ctx = enter(&rq);
@@ -386,6 +393,7 @@ pub fn echo_api() -> ApiDescription<EchoCtx> {
     api.register(ve_json).unwrap();
     api.register(ve_all).unwrap();
     api.register(ve_form).unwrap();
+    api.register(ve_flatjson).unwrap();
     api.register(ve_multipart).unwrap();
     api.register(ve_raw).unwrap();
     api.register(ve_stream).unwrap();
